@@ -116,6 +116,7 @@ type leg struct {
 	Race      bool    `json:"race"`       // needs the -race binary
 	QuickRuns int     `json:"quick_runs"` //
 	Share     float64 `json:"share"`      // share of the thorough budget
+	Prop      string  `json:"prop"`       // scenario family run by this leg (default: the property id itself)
 	Procs     int     `json:"procs"`      // GOMAXPROCS per worker (0 = 1)
 	Workers   int     `json:"workers"`    // 0 = all cores
 }
@@ -135,6 +136,7 @@ type replayFile struct {
 }
 
 type found struct {
+	simID    string
 	sig      string
 	run      int
 	sub      int
@@ -279,6 +281,7 @@ func crashSignature(stderr string) (clause, site, detail string) {
 }
 
 type agg struct {
+	simID       string
 	mu          sync.Mutex
 	evals       int
 	nontrivial  map[string]struct{}
@@ -350,7 +353,7 @@ func (a *agg) add(r *rec, tier string, keepDigests bool) {
 		a.inconcl++
 	}
 	if len(res.Violations) > 0 {
-		a.addFound(&found{sig: r.Sig, run: r.Run, sub: r.Sub, tier: tier, scenario: r.Scenario, res: res})
+		a.addFound(&found{simID: a.simID, sig: r.Sig, run: r.Run, sub: r.Sub, tier: tier, scenario: r.Scenario, res: res})
 	} else if len(r.Scenario) > 0 && len(a.samples) < 4 {
 		a.samples = append(a.samples, r.Scenario)
 	}
@@ -474,7 +477,7 @@ func runWorker(bin, id, tier string, seed uint64, from, to, step int, budget tim
 				sig += " @" + site
 			}
 			sig += " [" + class + "]"
-			a.addFound(&found{sig: sig, run: inflight, sub: inflightSub, tier: tier, scenario: scj, res: &result{Violations: []violation{{Clause: clause, Site: site, Detail: detail}}}, crash: detail})
+			a.addFound(&found{simID: id, sig: sig, run: inflight, sub: inflightSub, tier: tier, scenario: scj, res: &result{Violations: []violation{{Clause: clause, Site: site, Detail: detail}}}, crash: detail})
 			a.mu.Unlock()
 		}
 		if hasExpand {
@@ -484,6 +487,13 @@ func runWorker(bin, id, tier string, seed uint64, from, to, step int, budget tim
 			from = inflight + step
 		}
 	}
+}
+
+// isRaceTier reports whether a tier string names a race-detector leg ("quick:R", "quick:NR").
+func isRaceTier(t string) bool {
+	_, leg, ok := strings.Cut(t, ":")
+
+	return ok && strings.HasSuffix(leg, "R")
 }
 
 func lastN(s string, n int) string {
@@ -783,6 +793,16 @@ func check(id, tier string) int {
 			b = time.Duration(float64(budget) * lg.Share)
 		}
 		before := a.evals
+		simID := id
+		if lg.Prop != "" {
+			simID = lg.Prop
+			if lm, err := getMeta(lbin, simID); err == nil {
+				hasExpand = lm.Expand
+			}
+		} else {
+			hasExpand = m.Expand
+		}
+		a.simID = simID
 		var wg sync.WaitGroup
 		for w := 0; w < workers; w++ {
 			wg.Add(1)
@@ -792,7 +812,7 @@ func check(id, tier string) int {
 				if w == 0 {
 					s = 3
 				}
-				runWorker(lbin, id, ltier, seed, w, to, workers, b, procs, a, false, s)
+				runWorker(lbin, simID, ltier, seed, w, to, workers, b, procs, a, false, s)
 			}(w)
 		}
 		wg.Wait()
@@ -811,24 +831,28 @@ func check(id, tier string) int {
 	for i, sig := range sigs {
 		f := a.found[sig]
 		path := filepath.Join(verifDir, "replays", fmt.Sprintf("%s-%s-s%d-r%d.%d.json", id, sigHash(sig), seed, f.run, f.sub))
-		rf := &replayFile{Property: id, Seed: seed, Run: f.run, Sub: f.sub, Tier: f.tier, Signature: sig, Scenario: f.scenario, Violation: f.res.Violations, Trace: f.res.Trace}
+		fid := f.simID
+		if fid == "" {
+			fid = id
+		}
+		rf := &replayFile{Property: fid, Seed: seed, Run: f.run, Sub: f.sub, Tier: f.tier, Signature: sig, Scenario: f.scenario, Violation: f.res.Violations, Trace: f.res.Trace}
 		_ = writeReplay(path, rf)
 		rbin := bin
-		if strings.Contains(f.tier, ":R") {
+		if isRaceTier(f.tier) {
 			rbin = filepath.Join(scratch, "sim.race.test")
 		}
 		note := ""
-		if strings.Contains(f.tier, ":R") {
+		if isRaceTier(f.tier) {
 			rf.Notes = "found by the free-running race leg: re-run by seed, not schedule-exact"
 			_ = writeReplay(path, rf)
 		} else if i < 4 && f.scenario != nil {
 			// confirm in a fresh process, then minimise
-			if s2, _, _, err := replayOnce(rbin, id, path); err != nil || s2 != sig {
+			if s2, _, _, err := replayOnce(rbin, fid, path); err != nil || s2 != sig {
 				note = fmt.Sprintf(" (replay in a fresh process ended in %q, err=%v)", s2, err)
 				rf.Notes = "did not reproduce on first replay: " + note
 				_ = writeReplay(path, rf)
 			} else {
-				min, tried := minimise(rbin, id, f, seed, scratch)
+				min, tried := minimise(rbin, fid, f, seed, scratch)
 				min.Notes = fmt.Sprintf("minimised with %d candidate runs; occurred in %d run(s) of this batch", tried, f.count)
 				mp := strings.TrimSuffix(path, ".json") + ".min.json"
 				if writeReplay(mp, min) == nil {
@@ -959,7 +983,7 @@ func replay(path string) int {
 		die(2, "%v", err)
 	}
 	defer os.RemoveAll(scratch)
-	race := strings.Contains(rf.Tier, ":R")
+	race := isRaceTier(rf.Tier)
 	bin, err := build(scratch, race)
 	if err != nil {
 		fmt.Fprintln(os.Stderr, err)
